@@ -379,7 +379,8 @@ Proof.
   destruct (0 <? sc_flow_level s1)%N; [apply rwp_ret; apply HQ; [exact HS|reflexivity|reflexivity]|].
   match goal with |- context [let '(ind, inds) := ?X in _] => destruct X as [ind inds] end.
   destruct (ind <? Z.of_N col)%Z.
-  - apply rwp_bind. apply rwp_put_skel; [rel_skel|reflexivity|reflexivity|]. intros u1 u2 HU RU BU.
+  - destruct (BLOCK_NESTING_MAX <=? N.of_nat (length inds))%N; [unfold rwp; split; reflexivity|].
+    apply rwp_bind. apply rwp_put_skel; [rel_skel|reflexivity|reflexivity|]. intros u1 u2 HU RU BU.
     destruct number as [n|].
     + destruct (n <? sc_tokens_parsed s1)%N; [apply rwp_panic_r|].
       apply rwp_insert_token; [exact HU|reflexivity|reflexivity|]. intros t1 t2 HT RT BT. apply HQ; [exact HT|congruence|congruence].
